@@ -1,3 +1,4 @@
+import Ebu.Spec.Flow
 import Ebu.Generated.SqlFacts
 import Ebu.Model.Durable
 import Ebu.Proofs.Durable
@@ -75,10 +76,9 @@ theorem migrate_in_one_tx :
     (migrateOutsideTx.all (fun st => st.take 5 == ["CREATE", "TABLE", "IF", "NOT", "EXISTS"])) = true ∧
     ((migrateInTx.take 3).all (fun st => (st.drop 2).take 3 == ["IF", "NOT", "EXISTS"])) = true := by decide
 
-/-- the harness judgement accepts exactly what the model can produce after a kill during an
-append: the acknowledged events, in order, plus at most the one in flight -/
-example : recoveredOk [1, 2, 3] [1, 2, 3] [1, 2, 3] (some 4) = true ∧ recoveredOk [1, 2, 3] [1, 2, 3, 4] [1, 2, 3, 4] (some 4) = true ∧
-    recoveredOk [1, 2, 3] [1, 2] [1, 2] (some 4) = false ∧ recoveredOk [1, 2, 3] [1, 3, 2] [1, 2, 3] none = false := by
-  decide
+/-! ### obligations on the control flow of the CURRENT source (`Ebu/Generated/Flow.lean`, regenerated from /repo on every run) -/
+
+/-- OBLIGATION: SQLite `Append` makes one Exec and takes the offset from that Exec's result -/
+theorem flow_sqlite_append_shape : Ebu.Flow.sqliteShape = true := by decide +kernel
 
 end Ebu.Props.C14
